@@ -25,6 +25,7 @@ Proved here (all inputs, no bounds):
       exhaustive `nm canon` ops but not proved. `C01_without_exemption_refuted` documents, with a
       kernel-evaluated witness, that the synthetic-oneof exemption is really needed.
 -/
+import PCV.Props.C01V
 import PCV.Lemmas.MiniProtoBridge
 import PCV.Lemmas.MiniProtoWf
 import PCV.Lemmas.MiniProtoJson
@@ -482,3 +483,7 @@ end PCV.Props.C01
 #print axioms PCV.Props.C01.C01_full_of_enumCanon
 #print axioms PCV.Props.C01.C01_without_exemption_refuted
 #print axioms PCV.Props.C01.C01_partial
+#print axioms PCV.Props.C01V.C01V_partial
+#print axioms PCV.Props.C01V.accepts_only_what_protoc_accepts
+#print axioms PCV.Props.C01V.C01V_full_refuted
+#print axioms PCV.Props.C01V.first_error
